@@ -7,7 +7,8 @@ warnings.simplefilter("ignore")
 TRUSTED = ["Coq 8.16.1 kernel", "extraction (ExtrOcamlBasic, Z inductive) + oracle/driver.ml", "this harness"]
 ASSUME = ["rows of length >= 1 (the property's domain); integer values",
           "the oracle returns the model's (boundaries, values, decoded rows); the decoded rows are compared with the dense computation inside the model"]
-RULE = ("seeded random ragged arrays (1..4 rows of 1..5 values over {0,1,1,2}) and matrices; per object: encode, 4 row selectors, one element, "
+from harness.fam_rl2d2 import RULE2
+RULE = RULE2 + " || " + ("seeded random ragged arrays (1..4 rows of 1..5 values over {0,1,1,2}) and matrices; per object: encode, 4 row selectors, one element, "
         "every integer column valid in all rows, row reductions, ravel / col_counts / column sum, 12 seeded column ranges (kept when non-empty in "
         "every row and, for negative steps, with bounds inside the rows), scalar and column ufuncs on both sides; matrix variant: encode, reversed "
         "rows, row sums; non-trivial = at least two rows; distinct = distinct protocol line")
@@ -15,6 +16,8 @@ UFS = ["add", "subtract", "multiply", "maximum", "less"]
 
 
 def run(R, tier, rng):
+    from harness import fam_rl2d2
+    fam_rl2d2.run_c17(R, tier, rng)
     import numpy as np
     from npstructures import RaggedArray, RunLengthRaggedArray, RunLength2dArray
     def to_py(x):
